@@ -16,11 +16,15 @@ Definition enc_fctl (f : fctl) : list Z :=
   to_be32 (fc_seq f) ++ to_be32 (fc_w f) ++ to_be32 (fc_h f) ++ to_be32 (fc_x f) ++ to_be32 (fc_y f) ++
   to_be16 (fc_dn f) ++ to_be16 (fc_dd f) ++ [fc_dispose f; fc_blend f].
 
-(* encode_iso_8859_1(keyword)?; if data.is_empty() || data.len() > 79 -> InvalidKeywordSize *)
+Definition has_zero (l : list Z) : bool := existsb (Z.eqb 0) l.
+
+(* encode_iso_8859_1(keyword)?; if data.is_empty() || data.len() > 79 -> InvalidKeywordSize; if data.contains(&0) -> Unrepresentable
+   (after fix b862217: a keyword ends at the first zero byte of the chunk) *)
 Definition enc_keyword (kw : list Z) : outcome (list Z) menc_err :=
   match encode_latin1 kw with
   | None => Err MUnrepresentable
-  | Some b => if (length b =? 0)%nat || (79 <? length b)%nat then Err MKeywordSize else Ok b
+  | Some b => if (length b =? 0)%nat || (79 <? length b)%nat then Err MKeywordSize
+              else if has_zero b then Err MUnrepresentable else Ok b
   end.
 
 Definition enc_text (kw txt : list Z) : outcome (list Z) menc_err :=
@@ -50,7 +54,8 @@ Definition ascii_cps (l : list Z) : bool := forallb (fun c => (0 <=? c) && (c <?
 Definition enc_itxt (kw : list Z) (compressed : bool) (lang trans txt : list Z) : outcome (list Z) menc_err :=
   match enc_keyword kw with
   | Ok k =>
-    if negb (ascii_cps lang) then Err MUnrepresentable
+    if negb (ascii_cps lang) || has_zero lang then Err MUnrepresentable
+    else if has_zero trans then Err MUnrepresentable
     else Ok (k ++ 0 :: (if compressed then 1 else 0) :: 0 :: lang ++ 0 :: trans ++ 0 :: (if compressed then K txt else txt))
   | Err e => Err e
   | Panic p => Panic p
